@@ -278,6 +278,10 @@ def main(argv: list[str]) -> int:
         from . import sensitivity
 
         return sensitivity.main(argv[2:])
+    if cmd == "benign":
+        from . import sensitivity
+
+        return sensitivity.main_benign(argv[2:])
     if cmd == "case":
         ensure_hashseed()
         return cmd_case(argv[2], argv[3], int(argv[4]), argv[5] if len(argv) > 5 else "quick")
